@@ -1223,6 +1223,7 @@ type boundOb struct {
 	pos    token.Pos
 	ok     bool
 	reason string
+	fp     string // structural fingerprint of how the operands are computed (audits are tied to it)
 }
 
 // exprAt returns the source text of the index/slice expression at pos.
@@ -1274,11 +1275,11 @@ func (e *boundsEngine) checkFunction(fn *ssa.Function) []boundOb {
 	add := func(in ssa.Instruction, ok bool, reason string) {
 		if !in.Pos().IsValid() {
 			if !ok {
-				out = append(out, boundOb{fn, "(compiler-generated)", fn.Pos(), false, reason})
+				out = append(out, boundOb{fn, "(compiler-generated)", fn.Pos(), false, reason, ""})
 			}
 			return
 		}
-		out = append(out, boundOb{fn, e.exprAt(in.Pos()), in.Pos(), ok, reason})
+		out = append(out, boundOb{fn, e.exprAt(in.Pos()), in.Pos(), ok, reason, instrFingerprint(in)})
 	}
 	for _, b := range fn.Blocks {
 		for _, in := range b.Instrs {
@@ -1341,9 +1342,17 @@ func (e *boundsEngine) checkFunction(fn *ssa.Function) []boundOb {
 		o := out[i]
 		k := o.expr
 		if m, ok := merged[k]; ok {
+			fps := m.fp
+			if o.fp != "" && !strings.Contains(";"+fps+";", ";"+o.fp+";") {
+				parts := strings.Split(fps, ";")
+				parts = append(parts, o.fp)
+				sort.Strings(parts)
+				fps = strings.Join(parts, ";")
+			}
 			if !o.ok && m.ok {
 				*m = o
 			}
+			m.fp = fps
 			continue
 		}
 		oc := o
@@ -2050,4 +2059,109 @@ func closureMayWriteVar(c *ssa.Function, name string, depth int) bool {
 		}
 	}
 	return false
+}
+
+// ---- fingerprints -----------------------------------------------------------------------
+// An audited entry is a reading of the code as it was: "start is the cursor saved before …". It stays valid
+// under renames and moves, but not when the values involved are computed differently. The fingerprint
+// describes, without names or positions, how the operands of an index/slice/make expression are defined
+// (three levels deep); the audit tables record it, and a different fingerprint voids the audit.
+
+func valueFingerprint(v ssa.Value, depth int, busy map[ssa.Value]bool) string {
+	if v == nil {
+		return "-"
+	}
+	if c, ok := v.(*ssa.Const); ok {
+		if c.Value == nil {
+			return "nil"
+		}
+		return "c" + c.Value.ExactString()
+	}
+	if depth <= 0 || busy[v] {
+		return "_"
+	}
+	busy[v] = true
+	defer delete(busy, v)
+	sub := func(x ssa.Value) string { return valueFingerprint(x, depth-1, busy) }
+	switch x := v.(type) {
+	case *ssa.Parameter:
+		return "param"
+	case *ssa.FreeVar:
+		return "freevar"
+	case *ssa.Global:
+		return "global:" + x.Name()
+	case *ssa.Alloc:
+		return "local"
+	case *ssa.Phi:
+		var es []string
+		for _, ed := range x.Edges {
+			es = append(es, sub(ed))
+		}
+		sort.Strings(es)
+		return "phi(" + strings.Join(es, ",") + ")"
+	case *ssa.BinOp:
+		return x.Op.String() + "(" + sub(x.X) + "," + sub(x.Y) + ")"
+	case *ssa.UnOp:
+		if x.Op == token.MUL {
+			return "*" + sub(x.X)
+		}
+		return x.Op.String() + sub(x.X)
+	case *ssa.FieldAddr:
+		return sub(x.X) + "." + core.FieldName(x.X.Type(), x.Field)
+	case *ssa.Field:
+		return sub(x.X) + "." + core.FieldName(x.X.Type(), x.Field)
+	case *ssa.IndexAddr:
+		return sub(x.X) + "[" + sub(x.Index) + "]"
+	case *ssa.Index:
+		return sub(x.X) + "[" + sub(x.Index) + "]"
+	case *ssa.Lookup:
+		return sub(x.X) + "[" + sub(x.Index) + "]"
+	case *ssa.Slice:
+		return sub(x.X) + "[" + sub(x.Low) + ":" + sub(x.High) + "]"
+	case *ssa.Extract:
+		return sprintf("#%d", x.Index) + sub(x.Tuple)
+	case *ssa.Convert:
+		return "conv(" + sub(x.X) + ")"
+	case *ssa.ChangeType:
+		return sub(x.X)
+	case *ssa.MakeSlice:
+		return "make(" + sub(x.Len) + "," + sub(x.Cap) + ")"
+	case *ssa.Call:
+		name := "dyn"
+		if b, ok := x.Call.Value.(*ssa.Builtin); ok {
+			name = b.Name()
+		} else if f := x.Call.StaticCallee(); f != nil {
+			name = f.Name()
+		} else if x.Call.IsInvoke() {
+			name = "." + x.Call.Method.Name()
+		}
+		var as []string
+		for _, a := range x.Call.Args {
+			as = append(as, sub(a))
+		}
+		return name + "(" + strings.Join(as, ",") + ")"
+	case *ssa.Next:
+		return "next"
+	case *ssa.Range:
+		return "range(" + sub(x.X) + ")"
+	}
+	return "?"
+}
+
+func instrFingerprint(in ssa.Instruction) string {
+	busy := map[ssa.Value]bool{}
+	const d = 3
+	switch x := in.(type) {
+	case *ssa.IndexAddr:
+		return valueFingerprint(x.X, d, busy) + "[" + valueFingerprint(x.Index, d, busy) + "]"
+	case *ssa.Index:
+		return valueFingerprint(x.X, d, busy) + "[" + valueFingerprint(x.Index, d, busy) + "]"
+	case *ssa.Lookup:
+		return valueFingerprint(x.X, d, busy) + "[" + valueFingerprint(x.Index, d, busy) + "]"
+	case *ssa.Slice:
+		return valueFingerprint(x.X, d, busy) + "[" + valueFingerprint(x.Low, d, busy) + ":" + valueFingerprint(x.High, d, busy) + "]"
+	case *ssa.MakeSlice:
+		return "make(" + valueFingerprint(x.Len, d, busy) + "," + valueFingerprint(x.Cap, d, busy) + ")"
+	}
+	return ""
 }
